@@ -1,7 +1,8 @@
 #!/bin/bash
+ROOT=$(cd "$(dirname "$0")/.." && pwd)
 # runs every claimed check's quick command with default settings (what vp check does) and
 # validates the evidence files
-cd /verif
+cd "$ROOT"
 rc=0
 for p in $(python3 -c "import json;print(' '.join(c['property_id'] for c in json.load(open('MANIFEST.json'))['checks']))"); do
   ./check $p quick 2>&1 | grep -E "^(VIOLATION|KNOWN|INFRA|REACH|C[0-9]+ quick)" | cut -c1-400
@@ -9,7 +10,7 @@ for p in $(python3 -c "import json;print(' '.join(c['property_id'] for c in json
 done
 python3-vt - <<'PY'
 import json,jsonschema,glob
-m=json.load(open('/verif/MANIFEST.json'))
+m=json.load(open('MANIFEST.json'))
 jsonschema.validate(m, json.load(open('/root/.vp/MANIFEST.schema.json')))
 s=json.load(open('/root/.vp/EVIDENCE.schema.json'))
 for c in m['checks']:
